@@ -475,3 +475,56 @@ def replay_h_analyse_paths_root(a, b):
     if base != a or rel != [b + "/f.parq", b + "/g.parq"]:
         return True, "analyse_paths(%r, root=%r) = (%r, %r)" % (files, a, base, rel)
     return False, "agrees"
+
+
+# ------------------------------------------------------------------ hive sub-datasets below plain directories ---
+PLAIN_DIRS = ["part0", "part1", "batch", "x"]
+KVALS = [0, 1, 10, 42]
+
+
+def h_paths_mixed_levels(i0: int, i1: int, a: int, b: int, with_name: bool) -> bool:
+    """
+    pre: 0 <= i0 <= 3 and 0 <= i1 <= 3 and 0 <= a <= 3 and 0 <= b <= 3 and a != b
+    post: __return__
+    """
+    # files of several hive sub-datasets (or single files dropped into key=value directories) opened together: the
+    # relative paths mix plain directories and key=value directories; the key=value levels are partition columns, the
+    # plain ones are not
+    i0, i1 = _pickd(i0), _pickd(i1)
+    a, b = KVALS[_pickd(a)], KVALS[_pickd(b)]          # (key values by index: decimal text is rendered concretely)
+    fname = "part.0.parquet" if with_name else "data.parquet"
+    paths = ["%s/k=%d/%s" % (PLAIN_DIRS[i0], a, fname), "%s/k=%d/%s" % (PLAIN_DIRS[i1], b, fname)]
+    scheme, cats = api.paths_to_cats(paths, None)
+    return scheme == "hive" and list(cats) == ["k"] and sorted(int(x) for x in cats["k"]) == sorted([a, b])
+
+
+def _pickd(v):
+    for k in range(4):
+        if v == k:
+            return k
+    raise ValueError(v)
+
+
+def replay_h_paths_mixed_levels(i0, i1, a, b, with_name):
+    a, b = KVALS[a], KVALS[b]
+    import shutil, tempfile
+    import pandas as pd
+    import fastparquet
+    d = tempfile.mkdtemp(prefix="c14-")
+    try:
+        fname = "part.0.parquet" if with_name else "data.parquet"
+        files = []
+        for i, (pd_, k) in enumerate(((PLAIN_DIRS[i0] + "_a", a), (PLAIN_DIRS[i1] + "_b", b))):
+            sub = os.path.join(d, pd_, "k=%d" % k)
+            os.makedirs(sub)
+            fn = os.path.join(sub, fname)
+            fastparquet.write(fn, pd.DataFrame({"v": [10 * i, 10 * i + 1]}))
+            files.append(fn)
+        pf = fastparquet.ParquetFile(files)
+        out = pf.to_pandas()
+        if "k" not in out.columns or sorted(int(x) for x in out["k"]) != sorted([a, a, b, b]):
+            return True, "files %r opened as a list: scheme %r, columns %r" % (
+                [os.path.relpath(f, d) for f in files], pf.file_scheme, list(out.columns))
+        return False, "partition column recovered"
+    finally:
+        shutil.rmtree(d, ignore_errors=True)
